@@ -86,6 +86,23 @@ def gen_cfg(rng):
     return "random", cfg, rng.choice([0.0, C.dyadic(rng, -5, 45, 12)])
 
 
+def edge_solver_cases():
+    """deterministic edge stream: exact roots at the first guess and at the ends of the first bracket (products of
+    function values that are exactly zero), zero first guess, degenerate brackets"""
+    out = []
+    for g in (2.0, 6.0, 12.5, 20.0):
+        for a in (1.0, -0.5, 2.0):
+            for r in (g / 2, g, 3 * g / 2):
+                for cname, cfg in (("driver", CFG_DRIVER), ("default", CFG_DEFAULT)):
+                    out.append((0, a, -a * r, 0.0, cname, dict(cfg), g))
+        for cname, cfg in (("driver", CFG_DRIVER), ("default", CFG_DEFAULT)):
+            out.append((8, g, g / 2, 0.0, cname, dict(cfg), g))       # |x-g| - g/2: zero at both bracket ends
+            out.append((8, g / 2, 0.0, 0.0, cname, dict(cfg), g))     # kink and root at the lower bracket end
+            out.append((7, g / 2, 1.0, 1.0, cname, dict(cfg), g))     # jump exactly at the lower bracket end
+            out.append((7, g, 1.0, 1.0, cname, dict(cfg), g))         # jump exactly at the first guess
+    return out
+
+
 def newton_line(k, a, b, c, cfg, guess):
     return "newton %d %s %s %s %s %s %d %s %s %s %s %s %s %s" % (
         k, C.fx(a), C.fx(b), C.fx(c), C.fx(cfg["lo"]), C.fx(cfg["hi"]), cfg["maxit"], "T" if cfg["aitken"] else "F",
@@ -149,8 +166,9 @@ def check_solver(ctx, specs, impl, mod):
             ctx.tally("solver:non-finite-arithmetic(skipped)")
             continue
         if mo_out[0] != im_out[0] or (mo_out[0] == "exc" and mo_out[1] != im_out[1]):
-            if k in LIBM_KINDS and cfg["atol"] > 0:
-                ctx.tally("solver:libm-branch(skipped)")
+            if k in LIBM_KINDS:
+                # sin/exp of OCaml's and numba's libm may differ by an ulp, which can decide a branch of the iteration
+                ctx.tally("solver:libm-branch(not reported)")
                 continue
             ctx.disagree("numba_newton_raphson outcome differs from the model: impl %s, model %s (%s, %s options)"
                          % (im_out, mo_out, KIND_NAMES[k], cname), rep)
@@ -159,8 +177,8 @@ def check_solver(ctx, specs, impl, mod):
             xm, xi = mo_out[1], im_out[1]
             tol = 1e-9 if k not in LIBM_KINDS else 1e-6
             if not C.close(xi, xm, tol, 1e-12, max(abs(guess), 1.0)):
-                if k in LIBM_KINDS and abs(xi - xm) <= 2 * cfg["atol"]:
-                    ctx.tally("solver:libm-branch(skipped)")
+                if k in LIBM_KINDS:
+                    ctx.tally("solver:libm-branch(not reported)")
                 else:
                     ctx.disagree("numba_newton_raphson returns %r, model %r (%s, %s options)" % (xi, xm, KIND_NAMES[k], cname),
                                  rep)
@@ -243,11 +261,9 @@ def toy_h(kind, a, b, u):
     return u * u * a / (1 + b * u)
 
 
-def run_toy(ctx):
+def toy_specs(ctx):
     rng = ctx.rng
     nspec = ctx.n(3, 12)
-    ncase = ctx.n(30, 500)
-    nbatch = ctx.n(4, 40)
     specs = []
     const_cases = []
     for s in range(nspec):
@@ -257,7 +273,13 @@ def run_toy(ctx):
         specs.append(dict(f=f, th=th, E=E, omega=omega, theta=theta, df=df, dth=dth))
         const_cases.append({"op": "toyconst", "theta": [C.fx(v) for v in theta], "df": [C.fx(v) for v in df],
                             "dth": [C.fx(v) for v in dth], "omega": [C.fx(v) for v in omega], "E": flat(E)})
-    consts = ctx.impl("C11.py", {"cases": const_cases})["results"]
+    return specs, const_cases
+
+
+def toy_cases(ctx, specs, consts):
+    rng = ctx.rng
+    ncase = ctx.n(30, 500)
+    nbatch = ctx.n(4, 40)
     for sp, co in zip(specs, consts):
         if "error" in co:
             raise C.Infra("toy constants failed: %s" % co)
@@ -318,7 +340,11 @@ def run_toy(ctx):
         zeroT = [[0.0] * len(sp["dth"]) for _ in sp["df"]]
         cases.append(dict(base, op="toypoints", Es=[flat(e) for e in Es], T=flat(zeroT),
                           guess=[C.fx(g) for g in guesses], diriter=diriter))
-    impl = ctx.impl("C11.py", {"cases": cases})["results"]
+    return cases, metas, bmetas
+
+
+def toy_finish(ctx, specs, metas, bmetas, impl):
+    ncase = len(metas)
     # model lines need the implementation's own stress direction (an input of the model)
     lines = []
     for meta, im in zip(metas, impl[:ncase]):
@@ -467,7 +493,7 @@ def sign_changes(vals):
     return out
 
 
-def run_real(ctx):
+def real_cases(ctx):
     rng = ctx.rng
     nb = ctx.n(6, 70)
     batches = []
@@ -498,7 +524,10 @@ def run_real(ctx):
                       "nd": bt["nd"], "specs": [sea_payload(s) for s in bt["seas"]],
                       "dedt": ({k: C.fx(v) for k, v in bt["dedt"].items()} if bt["dedt"] else None),
                       "diriter": bt["diriter"], "scan": [C.fx(u) for u in SCAN], "nfield": ctx.n(2, 3), "singles": True})
-    impl = ctx.impl("C11.py", {"cases": cases})["results"]
+    return batches, cases
+
+
+def real_finish(ctx, batches, impl):
     lines, lmeta = [], []
     for bi, (bt, im) in enumerate(zip(batches, impl)):
         if "error" in im:
@@ -650,7 +679,10 @@ def run_real(ctx):
 
 
 def run(ctx):
+    import time
+    from concurrent.futures import ThreadPoolExecutor
     rng = ctx.rng
+    t0 = time.time()
     # ---------------- (a) solver
     n = ctx.n(600, 20000)
     specs, cases, lines = [], [], []
@@ -660,9 +692,15 @@ def run(ctx):
         specs.append((k, a, b, c, cname, cfg, guess))
         cases.append(newton_case(k, a, b, c, cfg, guess))
         lines.append(newton_line(k, a, b, c, cfg, guess))
+    for (k, a, b, c, cname, cfg, guess) in edge_solver_cases():
+        specs.append((k, a, b, c, cname, cfg, guess))
+        cases.append(newton_case(k, a, b, c, cfg, guess))
+        lines.append(newton_line(k, a, b, c, cfg, guess))
+    n = len(specs)
     # a NaN-valued function must end in an exception (validated on the implementation only)
     nan_case = dict(newton_case(0, 1.0, 1.0, 0.0, CFG_DRIVER, 5.0), kind=100)
-    impl = ctx.impl("C11.py", {"cases": cases + [nan_case]})["results"]
+    tspecs, const_cases = toy_specs(ctx)
+    impl = ctx.impl("C11.py", {"cases": cases + [nan_case] + const_cases})["results"]
     mod = ctx.model(lines)
     check_solver(ctx, specs, impl[:n], mod)
     if "exc" not in impl[n]:
@@ -670,10 +708,22 @@ def run(ctx):
                         {"op": "numba_newton_raphson", "function": "nan", "impl": impl[n]})
     ctx.sample({"solver": {"function": KIND_NAMES[specs[0][0]], "params": specs[0][1:4], "config": specs[0][4],
                            "guess": specs[0][6], "impl": impl[0], "model": " ".join(mod[0])}})
-    # ---------------- (b) real driver on analytic source terms
-    run_toy(ctx)
-    # ---------------- (c) real source terms
-    run_real(ctx)
+    t1 = time.time()
+    # ---------------- (b) real driver on analytic source terms, (c) real source terms: the two implementation
+    # processes run side by side (each pays its own numba compilation)
+    tcases, metas, bmetas = toy_cases(ctx, tspecs, impl[n + 1:])
+    batches, rcases = real_cases(ctx)
+    with ThreadPoolExecutor(max_workers=2) as ex:
+        ft = ex.submit(ctx.impl, "C11.py", {"cases": tcases})
+        fr = ex.submit(ctx.impl, "C11.py", {"cases": rcases})
+        timpl = ft.result()["results"]
+        t2 = time.time()
+        rimpl = fr.result()["results"]
+    t3 = time.time()
+    toy_finish(ctx, tspecs, metas, bmetas, timpl)
+    real_finish(ctx, batches, rimpl)
+    ctx.extra["wall_parts_s"] = {"solver": round(t1 - t0, 1), "toy_driver_impl": round(t2 - t1, 1),
+                                 "real_source_terms_impl": round(t3 - t1, 1), "compare": round(time.time() - t3, 1)}
 
 
 READY = False
